@@ -1138,7 +1138,7 @@ class Timeout:
 
 # ====================================================================== property module interface
 
-THEOREMS = ['Props.C05.' + t for t in ['column_boundaries_correct', 'row_slicing_correct', 'field_value_printed', 'blank_field_is_zero',
+THEOREMS = ['Props.C05.' + t for t in ['binding_is_modelled', 'column_boundaries_correct', 'row_slicing_correct', 'field_value_printed', 'blank_field_is_zero',
                                     'field_beyond_row_is_zero', 'line_terminator_ignored', 'row_format_decidable', 'icolumn_negative_first_real_witness',
                                     'rows_keyed_by_printed_index', 'rows_in_index_order', 'autough2_row_split_correct',
                                     'autough2_adjacent_numbers_merge', 'addressing_agrees', 'reversed_key_row']]
@@ -1231,6 +1231,12 @@ FIXED_VARIANTS = [
     ('TOUGH2/10/case10.listing', {'kind': 'perturb', 'seed': 363380031, 'frac': 0.6, 'modes': ['neg', 'zero', 'digits'], 'first_rows': False}),
 ]
 SAFE_MODES = ['digits', 'zero']      # same layout as the original: the reader cannot refuse these
+
+
+def translate(ctx):
+    """regenerate lean/PyTough/Gen/ListingBind.lean (per-simulator method binding) from the current /repo source"""
+    from translate import listing_bind
+    listing_bind.run()
 
 
 def run(ctx):
